@@ -1807,13 +1807,17 @@ func runC18(c *harness.Ctx) {
 				}
 				// the timestamp that accompanies a notification carries no meaning for activation:
 				// epoch start times (default), always zero, strictly decreasing, pseudo-random
-				switch (ci + int(a)) % 4 {
+				switch (ci + int(a)) % 6 {
 				case 1:
 					w.TimestampOf = func(uint32, int) uint64 { return 0 }
 				case 2:
 					w.TimestampOf = func(_ uint32, n int) uint64 { return 1<<40 - uint64(n) }
 				case 3:
 					w.TimestampOf = func(e uint32, n int) uint64 { return harness.Hash64(fmt.Sprint(e, n)) }
+				case 4:
+					w.TimestampOf = func(uint32, int) uint64 { return 1600000000 } // the same non-zero value every time
+				case 5:
+					w.TimestampOf = func(_ uint32, n int) uint64 { return 1600000000 + uint64(n/2)*6 } // repeating in pairs
 				}
 				return w
 			}
